@@ -116,6 +116,288 @@ def gen(rng, big=False):
     return p
 
 
+
+# ------------------------------------------------------------------ non-linear recursion templates
+# A rule with two or more positive premises over predicates of its own stratum needs one
+# delta version PER OCCURRENCE (makeDeltaRules): a derivation whose newest fact matches a
+# later occurrence, while the earlier occurrences are matched by older facts, is found only
+# through the delta rule of that later occurrence. The data of these templates is a random
+# derivation order, so that the facts joined by one rule instance are first derived in
+# different rounds, in both orders. All models are finite (numbers below a bound, or a fixed
+# universe of elements). Added after seeded change C20-1 (one delta rule per body predicate).
+def _finish_template(rng, clauses, facts, feature):
+    """Program dict from clauses + facts: stratified layers, a home for every predicate's facts."""
+    rng.shuffle(clauses)
+    layers = dc.stratify(clauses)
+    assert layers is not None
+    prog = {"clauses": clauses, "layers": layers, "init": [], "pre": [],
+            "features": sorted({"recursive", "nonlinear", "template", feature})}
+    seen, uniq = set(), []
+    for f in facts:
+        t = dc.fact_text(f)
+        if t not in seen:
+            seen.add(t)
+            uniq.append(f)
+    rng.shuffle(uniq)
+    if rng.random() < 0.3:
+        prog["pre"] = uniq           # one_home_per_predicate then re-homes predicate by predicate
+    else:
+        prog["init"] = uniq
+    one_home_per_predicate(prog, rng)
+    give_facts(prog, rng)
+    return prog
+
+
+def _upper_layer(rng, clauses, facts, derived, cand_pred, out_pred, universe):
+    """Optionally a layer above the recursion that reads it under negation, so that a fact the
+    recursion misses shows up as an extra fact of the upper predicate."""
+    if rng.random() < 0.3:
+        X = dc.var(1)
+        clauses.append(dc.clause(dc.atom(out_pred, X), [["atom", dc.atom(cand_pred, X)], ["neg", dc.atom(derived, X)]]))
+        facts += [dc.fact(cand_pred, dc.num(v)) for v in rng.sample(universe, min(len(universe), rng.randint(2, 5)))]
+
+
+def tmpl_asym_join(rng, occurrences=2):
+    """reach(Y) :- reach(X1), .., reach(Xk), link(X1,..,Xk,Y)  (k = 2 or 3) in a random premise
+    order (the recursive predicate first / in the middle / last), a linear rule
+    reach(Y) :- reach(X), step(X,Y), seeds through start/1 or as facts of reach. The elements
+    1..n are derivable in a random order: element m from one earlier element (step) or from k
+    earlier elements in a random role assignment (link), so the newest premise fact of a link
+    instance sits at a random occurrence."""
+    START, STEP, LINK, REACH, CAND, OUT = 0, 1, 2, 3, 4, 5
+    k = occurrences
+    xs = [dc.var(i + 1) for i in range(k)]
+    Y = dc.var(k + 1)
+    body = [["atom", dc.atom(REACH, x)] for x in xs] + [["atom", dc.atom(LINK, *(xs + [Y]))]]
+    rng.shuffle(body)
+    step_body = [["atom", dc.atom(REACH, xs[0])], ["atom", dc.atom(STEP, xs[0], Y)]]
+    rng.shuffle(step_body)
+    clauses = [dc.clause(dc.atom(REACH, Y), body), dc.clause(dc.atom(REACH, Y), step_body)]
+    n = rng.randint(5, 9)
+    nseed = rng.randint(1, 2)
+    facts = []
+    if rng.random() < 0.6:
+        clauses.append(dc.clause(dc.atom(REACH, xs[0]), [["atom", dc.atom(START, xs[0])]]))
+        facts += [dc.fact(START, dc.num(v)) for v in range(1, nseed + 1)]
+    else:
+        facts += [dc.fact(REACH, dc.num(v)) for v in range(1, nseed + 1)]
+    have_step = have_link = False
+    for m in range(nseed + 1, n + 1):
+        earlier = list(range(1, m))
+        if len(earlier) >= k and (rng.random() < 0.65 or m == n and not have_link):
+            roles = rng.sample(earlier, k)                   # random order: no role is "the older one"
+            facts.append(dc.fact(LINK, *[dc.num(v) for v in roles + [m]]))
+            have_link = True
+        else:
+            facts.append(dc.fact(STEP, dc.num(rng.choice(earlier)), dc.num(m)))
+            have_step = True
+    # noise: links and steps that need an underivable element, or lead back into the set
+    for _ in range(rng.randint(0, 3)):
+        roles = [rng.randint(1, n + 2) for _ in range(k)]
+        facts.append(dc.fact(LINK, *[dc.num(v) for v in roles + [rng.randint(1, n + 3)]]))
+    if not have_step or rng.random() < 0.5:
+        facts.append(dc.fact(STEP, dc.num(n + 5), dc.num(rng.randint(1, n))))
+    if not have_link:
+        facts.append(dc.fact(LINK, *[dc.num(n + 5)] * (k + 1)))
+    _upper_layer(rng, clauses, facts, REACH, CAND, OUT, list(range(1, n + 4)))
+    return _finish_template(rng, clauses, facts, "asym-join-%d" % k)
+
+
+def tmpl_mutual_twice(rng):
+    """Mutual recursion in which each rule mentions the other predicate twice:
+    a(Y) :- b(X), b(Z), la(X,Z,Y).   b(Y) :- a(X), a(Z), lb(X,Z,Y).   plus linear crossings
+    a(Y) :- b(X), ea(X,Y).  b(Y) :- a(X), eb(X,Y).  and seeds; random derivation order."""
+    SA, SB, LA, LB, EA, EB, PA, PB = 0, 1, 2, 3, 4, 5, 6, 7
+    X, Z, Y = dc.var(1), dc.var(2), dc.var(3)
+
+    def shuffled(b):
+        rng.shuffle(b)
+        return b
+    clauses = [dc.clause(dc.atom(PA, Y), shuffled([["atom", dc.atom(PB, X)], ["atom", dc.atom(PB, Z)], ["atom", dc.atom(LA, X, Z, Y)]])),
+               dc.clause(dc.atom(PB, Y), shuffled([["atom", dc.atom(PA, X)], ["atom", dc.atom(PA, Z)], ["atom", dc.atom(LB, X, Z, Y)]])),
+               dc.clause(dc.atom(PA, Y), shuffled([["atom", dc.atom(PB, X)], ["atom", dc.atom(EA, X, Y)]])),
+               dc.clause(dc.atom(PB, Y), shuffled([["atom", dc.atom(PA, X)], ["atom", dc.atom(EB, X, Y)]])),
+               dc.clause(dc.atom(PA, X), [["atom", dc.atom(SA, X)]]),
+               dc.clause(dc.atom(PB, X), [["atom", dc.atom(SB, X)]])]
+    ina, inb = [1], [1, 2] if rng.random() < 0.5 else [2]
+    facts = [dc.fact(SA, dc.num(v)) for v in ina] + [dc.fact(SB, dc.num(v)) for v in inb]
+    # keep every extensional predicate inhabited (the naive entry point needs a fact of each)
+    facts += [dc.fact(LA, dc.num(90), dc.num(91), dc.num(92)), dc.fact(LB, dc.num(90), dc.num(91), dc.num(92)),
+              dc.fact(EA, dc.num(90), dc.num(91)), dc.fact(EB, dc.num(90), dc.num(91))]
+    for m in range(3, rng.randint(8, 12)):
+        to_a = rng.random() < 0.5
+        src = inb if to_a else ina
+        if len(src) >= 2 and rng.random() < 0.7:
+            x, z = rng.sample(src, 2)
+            facts.append(dc.fact(LA if to_a else LB, dc.num(x), dc.num(z), dc.num(m)))
+        else:
+            facts.append(dc.fact(EA if to_a else EB, dc.num(rng.choice(src)), dc.num(m)))
+        (ina if to_a else inb).append(m)
+    return _finish_template(rng, clauses, facts, "mutual-twice")
+
+
+def tmpl_arith_pairs(rng):
+    """Recursion through arithmetic over two occurrences of the recursive predicate with
+    asymmetric roles:  n(Z) :- n(X), n(Y), X < Y, Z = fn:plus(X,Y), Z < B.  (also <=, !=,
+    fn:mult, the comparison after the equality, the premises in either order, a third occurrence)."""
+    SEED, NUM, CAND, OUT = 0, 1, 2, 3
+    X, Y, Z, W = dc.var(1), dc.var(2), dc.var(3), dc.var(4)
+    mult = rng.random() < 0.25
+    three = rng.random() < 0.25
+    bound = rng.randint(30, 60) if mult else rng.randint(18, 30) if three else rng.randint(10, 24)
+    test = rng.choice([["cmp", "lt", X, Y], ["cmp", "lt", X, Y], ["cmp", "lt", X, Y], ["cmp", "le", X, Y],
+                       ["cmp", "le", X, Y], ["cmp", "gt", X, Y], ["cmp", "gt", X, Y], ["ineq", X, Y]])
+    atoms = [["atom", dc.atom(NUM, X)], ["atom", dc.atom(NUM, Y)]]
+    if three:
+        atoms.append(["atom", dc.atom(NUM, W)])
+        e = dc.app("plus", dc.app("mult" if mult else "plus", X, Y), W)
+        tail = [test, ["cmp", "lt", Y, W], ["eq", Z, e], ["cmp", "lt", Z, dc.cst(dc.num(bound))]]
+    else:
+        e = dc.app("mult" if mult else "plus", X, Y)
+        tail = [test, ["eq", Z, e], ["cmp", "lt", Z, dc.cst(dc.num(bound))]]
+        if rng.random() < 0.3:
+            tail = [["eq", Z, e], ["cmp", "lt", Z, dc.cst(dc.num(bound))], test]
+    # new numbers are sums / products, i.e. larger than the facts they come from: the newest
+    # fact of an instance usually is the LARGER of the two. Mostly the smaller one comes first,
+    # so that the larger, newer one is matched by a later occurrence.
+    smaller_first = rng.random() < 0.75
+    if (test[1] == "gt") == smaller_first and not three:
+        atoms.reverse()
+    clauses = [dc.clause(dc.atom(NUM, Z), atoms + tail)]
+    seeds = sorted(rng.sample(range(2, 6) if mult else range(1, 6), 2 if rng.random() < 0.7 else 3))
+    facts = []
+    if rng.random() < 0.5:
+        clauses.append(dc.clause(dc.atom(NUM, X), [["atom", dc.atom(SEED, X)]]))
+        facts += [dc.fact(SEED, dc.num(v)) for v in seeds]
+    else:
+        facts += [dc.fact(NUM, dc.num(v)) for v in seeds]
+    _upper_layer(rng, clauses, facts, NUM, CAND, OUT, list(range(1, bound + 2)))
+    return _finish_template(rng, clauses, facts, "arith-pairs")
+
+
+def tmpl_binary_asym(rng):
+    """A binary recursive predicate joined with itself in asymmetric roles:
+    r(X,W) :- r(X,Y), e(X,Y), g(Y,Z), r(Z,W).  with  r(X,Y) :- e(X,Y).  The first occurrence
+    can only be matched by a base pair (a linear recursion in disguise): every new fact
+    enters through the occurrence r(Z,W). Premises in a random order; chains of 3-6 pairs
+    connected by gates g in a random order, sometimes cyclic."""
+    E, G, R = 0, 1, 2
+    X, Y, Z, W = dc.var(1), dc.var(2), dc.var(3), dc.var(4)
+    body = [["atom", dc.atom(R, X, Y)], ["atom", dc.atom(E, X, Y)], ["atom", dc.atom(G, Y, Z)], ["atom", dc.atom(R, Z, W)]]
+    rng.shuffle(body)
+    clauses = [dc.clause(dc.atom(R, X, W), body), dc.clause(dc.atom(R, X, Y), [["atom", dc.atom(E, X, Y)]])]
+    n = rng.randint(3, 6)
+    facts = [dc.fact(E, dc.num(10 * i), dc.num(10 * i + 1)) for i in range(1, n + 1)]
+    order = list(range(1, n + 1))
+    rng.shuffle(order)
+    for a, b in zip(order, order[1:]):
+        if rng.random() < 0.9:
+            facts.append(dc.fact(G, dc.num(10 * a + 1), dc.num(10 * b)))
+    facts.append(dc.fact(G, dc.num(10 * order[-1] + 1), dc.num(10 * order[0] if rng.random() < 0.3 else 999)))
+    return _finish_template(rng, clauses, facts, "binary-asym")
+
+
+TEMPLATES = [("asym-join-2", lambda r: tmpl_asym_join(r, 2)), ("asym-join-3", lambda r: tmpl_asym_join(r, 3)),
+             ("mutual-twice", tmpl_mutual_twice), ("arith-pairs", tmpl_arith_pairs), ("binary-asym", tmpl_binary_asym)]
+
+
+def template_programs(rng, per_template):
+    return [f(rng) for _, f in TEMPLATES for _ in range(per_template)]
+
+
+def _tval(t, env):
+    if t[0] == "var":
+        return env.get(t[1])
+    if t[0] == "c":
+        return t[1][1]
+    if t[0] == "app":
+        vs = [_tval(x, env) for x in t[2]]
+        if any(v is None for v in vs):
+            return None
+        out = vs[0]
+        for v in vs[1:]:
+            out = out + v if t[1] == "plus" else out * v
+        return out
+    raise ValueError(t)
+
+
+def _solve(body, k, env, store, delta, dpos):
+    """all environments satisfying body[k:]; premise dpos reads `delta`, the others `store`"""
+    if k == len(body):
+        yield env
+        return
+    pr = body[k]
+    if pr[0] == "atom":
+        for row in (delta if k == dpos else store).get(pr[1]["p"], ()):
+            e2 = dict(env)
+            ok = True
+            for t, v in zip(pr[1]["args"], row):
+                if t[0] == "var" and t[1] not in e2:
+                    e2[t[1]] = v
+                elif _tval(t, e2) != v:
+                    ok = False
+                    break
+            if ok:
+                yield from _solve(body, k + 1, e2, store, delta, dpos)
+        return
+    if pr[0] == "neg":
+        row = tuple(_tval(t, env) for t in pr[1]["args"])
+        if row not in store.get(pr[1]["p"], ()):
+            yield from _solve(body, k + 1, env, store, delta, dpos)
+        return
+    if pr[0] == "eq" and pr[1][0] == "var" and pr[1][1] not in env:
+        e2 = dict(env)
+        e2[pr[1][1]] = _tval(pr[2], env)
+        yield from _solve(body, k + 1, e2, store, delta, dpos)
+        return
+    l, r = (_tval(pr[2], env), _tval(pr[3], env)) if pr[0] == "cmp" else (_tval(pr[1], env), _tval(pr[2], env))
+    ok = {"eq": l == r, "ineq": l != r}.get(pr[0])
+    if pr[0] == "cmp":
+        ok = {"lt": l < r, "le": l <= r, "gt": l > r, "ge": l >= r}[pr[1]]
+    if ok:
+        yield from _solve(body, k + 1, env, store, delta, dpos)
+
+
+def template_model(prog, per_occurrence):
+    """Generator health only (no engine, no verdict): semi-naive evaluation of a TEMPLATE
+    program (numbers, atoms, negation of lower layers, = with fn:plus/fn:mult, != and
+    comparisons) in Python, with one delta version per occurrence of a stratum predicate
+    (per_occurrence) or only for the first occurrence of each predicate. A program on which
+    the two differ exercises the delta rule of a later occurrence."""
+    store = {}
+    for f in prog.get("init", []) + prog.get("pre", []):
+        store.setdefault(f["p"], set()).add(tuple(c[1] for c in f["args"]))
+    for layer in prog["layers"]:
+        rules = [c for c in prog["clauses"] if c["head"]["p"] in layer]
+        delta = None
+        for _ in range(200):
+            new = {}
+            for c in rules:
+                if delta is None:
+                    positions = [-1]
+                else:
+                    positions, seen = [], set()
+                    for i, pr in enumerate(c["body"]):
+                        if pr[0] == "atom" and pr[1]["p"] in layer and (per_occurrence or pr[1]["p"] not in seen):
+                            seen.add(pr[1]["p"])
+                            positions.append(i)
+                for dpos in positions:
+                    for env in _solve(c["body"], 0, {}, store, delta or {}, dpos):
+                        row = tuple(_tval(t, env) for t in c["head"]["args"])
+                        if row not in store.get(c["head"]["p"], ()):
+                            new.setdefault(c["head"]["p"], set()).add(row)
+            if not new:
+                break
+            for q, rows in new.items():
+                store.setdefault(q, set()).update(rows)
+            delta = new
+    return store
+
+
+def later_occurrence_matters(prog):
+    return template_model(prog, True) != template_model(prog, False)
+
+
 # ------------------------------------------------------------------ case encoding
 def go_case(prog, shuffle_rng=None):
     return {"src": dc.to_mangle(prog, shuffle_rng), "pre": dc.facts_text(prog.get("pre", [])),
@@ -223,20 +505,30 @@ def run(ck):
         origin.append("corpus:" + nm)
     ncorpus = len(progs)
     filled = 0
-    for _ in range(ck.n(240, 2500)):
+    for _ in range(ck.n(206, 2400)):
         p = transform_free(dc.gen_program(rng, big=(not ck.quick) and rng.random() < 0.5))
         one_home_per_predicate(p, rng)
         filled += 1 if give_facts(p, rng) else 0
         progs.append(p)
         origin.append("random")
     nrandom = len(progs) - ncorpus
+    # non-linear recursion with asymmetric roles (every delta occurrence matters): every run
+    tmpl_counts, tmpl_sensitive = {}, {}
+    for nm, f in TEMPLATES:
+        for _ in range(ck.n(8, 40)):
+            p = f(rng)
+            progs.append(p)
+            origin.append("template:" + nm)
+            tmpl_counts[nm] = tmpl_counts.get(nm, 0) + 1
+            tmpl_sensitive[nm] = tmpl_sensitive.get(nm, 0) + (1 if later_occurrence_matters(p) else 0)
+    ntemplate = len(progs) - ncorpus - nrandom
     nexh = 0
     if not ck.quick:
         ex = list(exhaustive_programs())
         nexh = len(ex)
         progs += ex
         origin += ["exhaustive"] * nexh
-    go_cases = [go_case(p, shuffle_rng=rng if origin[i] == "random" and rng.random() < 0.5 else None)
+    go_cases = [go_case(p, shuffle_rng=rng if origin[i].startswith(("random", "template")) and rng.random() < 0.5 else None)
                 for i, p in enumerate(progs)]
     outs = ck.run_go("c20", go_cases, timeout=3000)
     ck.log("go side done: %d programs" % len(progs))
@@ -347,16 +639,22 @@ def run(ck):
     nontrivial = set()
     for i, p in enumerate(progs):
         fs = set(p.get("features", []))
-        if fs & {"recursive", "neg", "cmp", "same-round", "arith", "head-fn", "exhaustive"} or origin[i].startswith("corpus"):
+        if fs & {"recursive", "neg", "cmp", "same-round", "arith", "head-fn", "exhaustive", "template"} or origin[i].startswith("corpus"):
             nontrivial.add(go_cases[i]["src"] + "#" + go_cases[i]["pre"])
     sizes = [len(out["semi"]["facts"]) for (_, out) in where if out["semi"]["err"] == ""]
     cov = {"evaluations": evaluations, "programs": len(progs), "comparisons": len(terms),
            "both_engines_finished": both_finished, "go_vs_go_compared": go_compared,
            "distinct_nontrivial": len(nontrivial),
            "rule": "programs through parse -> AnalyzeOneUnit (as EvalProgramNaive calls it) -> EvalProgram and "
-                   "EvalProgramNaive on two copies of one SimpleInMemoryStore (corpus %d, random %d, exhaustive %d); "
+                   "EvalProgramNaive on two copies of one SimpleInMemoryStore (corpus %d, random %d, non-linear templates %d, "
+                   "exhaustive %d); "
                    "evaluations = engine runs; non-trivial = recursion, negation, comparison, arithmetic, head function "
-                   "or same-round join present; distinct by program text" % (ncorpus, nrandom, nexh),
+                   "or same-round join present; distinct by program text" % (ncorpus, nrandom, ntemplate, nexh),
+           "nonlinear_templates": {"programs": tmpl_counts,
+                                   "programs_where_a_later_occurrence_delta_rule_matters": tmpl_sensitive,
+                                   "how_counted": "Python semi-naive evaluation of the template program with a delta "
+                                                  "version per occurrence vs. only per distinct stratum predicate of a "
+                                                  "body (generator health, no engine, no verdict)"},
            "exhaustive": nexh > 0,
            "exhaustive_scope": ("all %d stratifiable safe programs of 2 free rules (+1 seed rule) with bodies of <=2 literals "
                                 "(positive/negated atoms, =, !=, <) over 2 extensional and 2 derived predicates, 2 variables: "
@@ -378,6 +676,16 @@ def run(ck):
         ck.violation({"property": "C20", "kind": "generator: more than 10% of the generated programs rejected by analysis",
                       "no_longer_checks": "correspondence Run.C20.judge (input distribution broken)",
                       "samples": cov["rejected_samples"]}, "no-failing-input-found")
+    rej_tmpl = [r for r in rejected if origin[r[0]].startswith("template")]
+    if rej_tmpl:
+        ck.violation({"property": "C20", "kind": "generator: a non-linear template program was rejected by analysis",
+                      "no_longer_checks": "correspondence Run.C20.judge (input distribution broken)",
+                      "samples": [(go_cases[i]["src"], m) for i, _, m in rej_tmpl[:3]]}, "no-failing-input-found")
+    if sum(tmpl_sensitive.values()) < 0.25 * max(1, ntemplate):
+        ck.violation({"property": "C20", "kind": "generator: fewer than 25% of the non-linear template programs need the "
+                                                 "delta rule of a later occurrence",
+                      "no_longer_checks": "correspondence Run.C20.judge (input distribution broken)",
+                      "counts": tmpl_sensitive}, "no-failing-input-found")
     if both_finished < 0.6 * max(1, len(terms)):
         ck.violation({"property": "C20", "kind": "fewer than 60% of the programs were finished by both engines",
                       "no_longer_checks": "correspondence Run.C20.judge (input distribution broken)",
